@@ -224,6 +224,10 @@ def main():
         if r["load_err"] or r["parse_err"]:
             ck.count((p, f), nontrivial=False); ck.tally("outcome", "patch rejected" if r["load_err"] else "file does not parse"); continue
         steps = [s for s in (r["steps"] or []) if s["matched"] and not s["replace_err"]]
+        if r.get("api_err") and steps and not r.get("out_err") and not any(s["replace_err"] for s in (r["steps"] or [])):
+            ck.violation("patch.File.Apply fails (%s) although every change applies step by step" % r["api_err"][:160], rep)
+        if r.get("api_differs"):
+            ck.tally("outcome", "library output differs from the step-by-step run (judged on the library's)")
         ck.count((p, f), nontrivial=bool(steps) and bool(r.get("out_owned")))
         ck.tally("patch_kind", pn if not pn.startswith(("combo:", "golden:")) else pn.split(":")[0])
         if not steps or not r.get("out_owned"):
